@@ -88,3 +88,44 @@ def product_enumeration(pcfg):
                 p *= pcfg.grammar[r][i]["prob"]
             out.append({"pt": list(zip(b["replacements"], vec)), "prob": p, "base_prob": b["prob"]})
     return out
+
+
+def independent_grid(rs, skip_brute, skip_case, folder, n_markov_levels):
+    """The pre-terminals the RULESET FILES define (not the loaded tables): per line of grammar.txt (or Prince/grammar.txt)
+    one base structure - its labels, a C<n> inserted behind every A<n>, the Markov line dropped under skip_brute - and per
+    variable one index per group of consecutive lines of equal probability (one group under all_lower for C<n>; one per OMEN
+    level for M).  Returns the multiset (Counter) of parse trees as tuples ((variable, index), ...)."""
+    import itertools
+    import re
+    from collections import Counter
+
+    def ngroups(name):
+        if name == "M":
+            return n_markov_levels
+        if name[0] == "C" and skip_case:
+            return 1
+        lines = rs["files"].get(name)
+        if not lines:
+            return 0
+        n, prev = 0, None
+        for _, p in lines:
+            if prev is None or float(p) != prev:
+                n += 1
+                prev = float(p)
+        return n
+    out = Counter()
+    for struct, _ in (rs["grammar"] if folder == "Grammar" else rs["prince"]):
+        if struct == "M":
+            if skip_brute:
+                continue
+            names = ["M"]
+        else:
+            names = []
+            for tok in re.findall(r"[A-Z][0-9]+", struct):
+                names.append(tok)
+                if tok[0] == "A":
+                    names.append("C" + tok[1:])
+        dims = [range(ngroups(n)) for n in names]
+        for vec in itertools.product(*dims):
+            out[tuple(zip(names, vec))] += 1
+    return out
